@@ -1,10 +1,11 @@
 # C05 — distributed mapreduce result equals central evaluation of the query.
-import hashlib, re
+import hashlib, os, re
 from fractions import Fraction
-from lib import vf
+from lib import vf, srv
 
 ID = "C05"
 PROP_FILE = "Props/C05.v"
+EXTRA_BINS = ("dmap",)
 CONSTS = ["aggregate_delimiter", "aggregate_kv_delimiter", "aggregate_group_key_combinator", "field_delimiter", "csv_delimiter"]
 RULE = ("real server-side Aggregates (one per server, forced to serialise at generated cut points) and real client-side "
         "Aggregates sharing a GlobalGroupSet, messages delivered in a generated interleaving; tables in generickv / default / "
@@ -133,10 +134,48 @@ def generate(rng, tier):
             servers.append(chunks)
         cases.append({"query": L(q), "servers": servers, "order": [rng.randrange(nserv) for _ in range(20)], "_meta": meta,
                       "reports": i % 2 == 0})      # the cumulative client prints interim results while partial results keep arriving
+    for k in range(3 if tier == "quick" else 12):
+        cases.append({"bb": k})
     return cases
 
 
+def _files_vs_central(k):
+    """Black box: the same lines in one file, spread over several files named one by one, and spread over files matched by one
+    glob - serverless dmap, result written to an outfile; the three tables must be the same."""
+    import random
+    rng = random.Random(500 + k)
+    env = srv.Env(os.path.join(vf.scratch(), "c05bb%d" % k))
+    d = os.path.join(env.dir, "parts")
+    os.makedirs(d, exist_ok=True)
+    nfiles = rng.choice([2, 3, 6])
+    allines, names = [], []
+    for f in range(nfiles):
+        lines = ["g=%s|v=%d" % (rng.choice("abc"), rng.randint(-5, 40)) for _ in range(rng.choice([1, 5, 40]))]
+        name = os.path.join(d, "p%d.log" % f)
+        open(name, "w").write("".join(l + "\n" for l in lines))
+        names.append(name)
+        allines += lines
+    central = os.path.join(env.dir, "central.log")
+    open(central, "w").write("".join(l + "\n" for l in allines))
+    out = {}
+    for label, files in (("central", central), ("list", ",".join(names)), ("glob", os.path.join(d, "p*.log"))):
+        of = os.path.join(env.dir, "out_%s.csv" % label)
+        q = "select g,count(v),sum(v),min(v),max(v),avg(v) from . group by g order by g outfile %s logformat generickv" % of
+        rc, o, e = env.client("dmap", ["--noColor", "--query", q, "--files", files], timeout=120)
+        out[label] = {"rc": rc, "rows": sorted(open(of).read().splitlines()[1:]) if os.path.exists(of) else None}
+    return {"bb": out, "files": nfiles, "lines": len(allines)}
+
+
 def run_impl(cases, tier):
+    bbi = [i for i, c in enumerate(cases) if "bb" in c]
+    bbo = {i: _files_vs_central(cases[i]["bb"]) for i in bbi}
+    real = [c for c in cases if "bb" not in c]
+    res = _run_harness(real)
+    it = iter(res)
+    return [bbo[i] if i in bbo else next(it) for i in range(len(cases))]
+
+
+def _run_harness(cases):
     mi = [i for i, c in enumerate(cases) if "wire" not in c]
     res, infos = vf.harness_parallel("mapr", [{k: v for k, v in cases[i].items() if not k.startswith("_")} for i in mi], shards=vf.NCPU)
     obs = [None] * len(cases)
@@ -338,6 +377,15 @@ def judge(cases, obs, tier):
     oracle, model, errors = {}, {}, []
     terms, idx = [], []
     for i, (c, o) in enumerate(zip(cases, obs)):
+        if "bb" in c:
+            b = o["bb"]
+            if any(v["rc"] != 0 or v["rows"] is None for v in b.values()):
+                oracle[i] = "serverless dmap failed: %s" % {k: v["rc"] for k, v in b.items()}
+            elif b["list"]["rows"] != b["central"]["rows"] or b["glob"]["rows"] != b["central"]["rows"]:
+                which = "glob" if b["glob"]["rows"] != b["central"]["rows"] else "list"
+                oracle[i] = "%d lines in %d files given as a %s: result %s, central evaluation over all lines %s" % (
+                    o["lines"], o["files"], which, b[which]["rows"][:4], b["central"]["rows"][:4])
+            continue
         if o is None or "panic" in o or "error" in o:
             oracle[i] = "implementation failed: %s" % (o,)
             continue
@@ -401,7 +449,7 @@ def judge(cases, obs, tier):
 
 
 def classify(case, ob, detail):
-    if "wire" in case:
+    if "wire" in case or "bb" in case:
         return None
     sels = case["_meta"]["sels"]
     if len(set(sels)) < len(sels):
@@ -412,12 +460,16 @@ def classify(case, ob, detail):
 
 
 def nontrivial(c):
+    if "bb" in c:
+        return True
     if "wire" in c:
         return len(c["wire"]) >= 2
     return sum(len(ch) for ch in c["servers"]) >= 2 and sum(1 for s in c["servers"] for ch in s if ch) >= 2
 
 
 def sample(c, o):
+    if "bb" in c:
+        return {"black_box": c["bb"], "files": (o or {}).get("files"), "lines": (o or {}).get("lines"), "central_rows": ((o or {}).get("bb") or {}).get("central", {}).get("rows")}
     if "wire" in c:
         return {"wire_parts": c["wire"], "rows": (o or {}).get("rows"), "messages": [m[:100] for m in ((o or {}).get("messages") or [])]}
     return {"query": bytes.fromhex(c["query"]).decode(), "servers": [[len(ch) for ch in s] for s in c["servers"]],
